@@ -180,6 +180,31 @@ def _sends_finish(facts, crate, c):
     return r
 
 
+def check_r4_written_amount(facts, rep, bodies, rid="C13.R4"):
+    """mux->local: what is consumed from the stream is what the local side's poll_write reported as written."""
+    k = 0
+    for b in bodies:
+        tr = Tracer(facts, b)
+        writes = [bj for bj, t in b.calls() if callee(t) and callee(t)["name"] == "poll_write"]
+        if not writes:
+            continue
+        for bi, t in b.calls():
+            c = callee(t)
+            if not c or c["name"] != "consume":
+                continue
+            k += 1
+            where = "%s (%s)" % (loc_str(t["loc"]), b.path)
+            amt = tr.operand(t["args"][1])
+            from_write = any(x.kind == "call" and x[6] == "poll_write" for x in walk(amt))
+            if from_write and any(b.dominates(w, bi) for w in writes):
+                rep.ok(rid, "%s/consume-written-amount" % b.path, where, "consume(n) with n = bytes accepted by the local side's poll_write")
+            else:
+                rep.bad(rid, "%s/consume-written-amount" % b.path, where,
+                        "the amount consumed from the stream (`%s`) is not the byte count returned by the local side's poll_write: on a "
+                        "short write the unwritten tail of the chunk is dropped silently" % fmt(strip(amt))[:80])
+    rep.floor(rid, "consume sites after a local poll_write", k, 1)
+
+
 def check_r4(facts, rep, crate, bodies):
     rid = "C13.R4"
     rep.rule(rid, "local->mux: nothing consumed before the credit take; each consume() takes the length of the appended chunk; "
@@ -206,6 +231,7 @@ def check_r4(facts, rep, crate, bodies):
             else:
                 rep.bad(rid, "%s/consume-amount" % b.path, where, "consume() amount `%s` is not the length of the chunk just appended" % fmt(amt))
     rep.floor(rid, "consume sites after credit take", n, 2)
+    check_r4_written_amount(facts, rep, bodies)
     # one unit of credit per Push frame; local EOF -> Finish is not credit-gated
     m = 0
     for b in bodies:
